@@ -21,7 +21,10 @@
 (*   Sample (composite driver): what AsyncExecutor handed to the sampler    *)
 (*         for the request whose top-level context is n: rs request_start,  *)
 (*         st service_time, ok: meta data says success (a failed composite  *)
-(*         reports no dependent timings), deps <<m, rs, re, st>>             *)
+(*         reports no dependent timings), deps <<m, rs, re, st, abs>> (abs:  *)
+(*         absolute_time minus the epoch of the virtual wall clock), solo =  *)
+(*         <<rs, st>> and solodeps <<m, rs, re, st, abs>>: the same request  *)
+(*         of the same client executed WITHOUT the other clients             *)
 (*         (m = context of that sub-request if the harness could link it,   *)
 (*         else 0)                                                          *)
 (* Context ids are given by the harness in order of creation, which is the  *)
@@ -51,13 +54,14 @@ VARIABLES tid,      \* index of the current trace
           fix,      \* every step of the current trace so far is a step of the repaired transcription
           pin,      \* ... of the as-written transcription
           badl,     \* first line that is a step of neither (0: none)
-          strict    \* every step so far obeys the structured usage discipline (StreamsAwaited = TRUE): no task left a block or
+          strict,   \* every step so far obeys the structured usage discipline (StreamsAwaited = TRUE): no task left a block or
                     \* ended while tasks it created inside were still running
+          et        \* et[n]: instant at which request context n was entered (recorded tau of its Enter step)
 
-tvars == <<vars, tid, l, nev, fix, pin, badl, strict>>
+tvars == <<vars, tid, l, nev, fix, pin, badl, strict, et>>
 
 TInit == /\ InitWith(IF Len(Traces) > 0 THEN Range(Traces[1].roots) ELSE {})
-         /\ tid = 1 /\ l = 1 /\ nev = 0 /\ fix = TRUE /\ pin = TRUE /\ badl = 0 /\ strict = TRUE
+         /\ tid = 1 /\ l = 1 /\ nev = 0 /\ fix = TRUE /\ pin = TRUE /\ badl = 0 /\ strict = TRUE /\ et = <<>>
 
 TraceTasks == 1..128
 NoTasks == {}
@@ -130,6 +134,7 @@ Step(id, e) ==
        IN /\ IF l1 = {} THEN TRUE
              ELSE PrintT(<<"V", id, l, "L1", l1>>) /\ Detail(id, newStart \cup newEnd \cup newLeaf \cup leaked)
           /\ strict' = (strict /\ Guard(TRUE, e))
+          /\ et' = IF e.a = "Enter" THEN Append(et, e.tau) ELSE et
           /\ fix' = (fix /\ okFix)
           /\ pin' = (pin /\ okPin)
           /\ badl' = IF badl = 0 /\ ~(fix /\ okFix) /\ ~(pin /\ okPin) THEN l ELSE badl
@@ -149,9 +154,23 @@ Sample(id, e) ==
                   /\ \A m \in SubRequests(n) :
                         Cardinality({i \in 1..Len(e.deps) : e.deps[i][2] = hs[m] /\ e.deps[i][3] = he[m]})
                           = Cardinality({k \in SubRequests(n) : hs[k] = hs[m] /\ he[k] = he[m]})
+        \* the absolute time of a sub-request lies in that sub-request: not before its timing context was entered (e.g. while it
+        \* was still queueing for a connection), not after its first wire request
+        dated == (known /\ e.ok) =>
+                   \A i \in 1..Len(e.deps) :
+                      LET x == e.deps[i] IN x[1] \in 1..Len(et) => (et[x[1]] <= x[5] /\ x[5] <= x[2])
+        \* "timings of different clients never influence each other": what was recorded for this request (and its sub-requests)
+        \* is what is recorded when the same client executes the same requests with the same scripted latencies ALONE
+        Triples(d) == [i \in 1..Len(d) |-> <<d[i][2], d[i][3], d[i][4]>>]
+        alone == /\ e.solo[1] = e.rs /\ e.solo[2] = e.st
+                 /\ Len(e.solodeps) = Len(e.deps)
+                 /\ \A i \in 1..Len(e.deps) :
+                       Cardinality({j \in 1..Len(e.deps) : Triples(e.deps)[j] = Triples(e.deps)[i]})
+                         = Cardinality({j \in 1..Len(e.solodeps) : Triples(e.solodeps)[j] = Triples(e.deps)[i]})
         l1 == (IF span THEN {} ELSE {"SampleSpan"}) \cup (IF dep THEN {} ELSE {"DependentExact"})
+              \cup (IF dated THEN {} ELSE {"DependentDated"}) \cup (IF alone THEN {} ELSE {"ClientIndependent"})
     IN /\ IF l1 = {} THEN TRUE ELSE PrintT(<<"V", id, l, "L1", l1>>)
-       /\ UNCHANGED <<vars, fix, pin, badl, strict>>
+       /\ UNCHANGED <<vars, fix, pin, badl, strict, et>>
 
 Consume ==
     /\ tid <= Len(Traces)
@@ -162,7 +181,7 @@ Consume ==
           ELSE IF Guard(FALSE, e) THEN Step(id, e) /\ l' = l + 1
           ELSE \* not an execution of any usage discipline the specification describes: harness error or unknown behaviour
                /\ PrintT(<<"V", id, l, "L2", {}>>)
-               /\ UNCHANGED <<vars, fix, pin, strict>>
+               /\ UNCHANGED <<vars, fix, pin, strict, et>>
                /\ badl' = 0
                /\ l' = Len(Traces[tid].ev) + 1
     /\ nev' = nev + 1 /\ tid' = tid
@@ -173,7 +192,7 @@ NextTrace ==
     /\ IF fix \/ pin \/ badl = 0 THEN TRUE ELSE PrintT(<<"V", Traces[tid].id, badl, "L2", {}>>)
     /\ IF fix /\ strict THEN TRUE ELSE PrintT(<<"N", Traces[tid].id, fix, pin, strict>>)
     /\ Reset(IF tid < Len(Traces) THEN Range(Traces[tid + 1].roots) ELSE {})
-    /\ tid' = tid + 1 /\ l' = 1 /\ nev' = nev /\ fix' = TRUE /\ pin' = TRUE /\ badl' = 0 /\ strict' = TRUE
+    /\ tid' = tid + 1 /\ l' = 1 /\ nev' = nev /\ fix' = TRUE /\ pin' = TRUE /\ badl' = 0 /\ strict' = TRUE /\ et' = <<>>
     /\ IF tid < Len(Traces) THEN TRUE ELSE PrintT(<<"DONE", Len(Traces), nev>>)
 
 TNext == Consume \/ NextTrace
